@@ -37,7 +37,15 @@ def seeds_table():
     if not os.path.exists(p): return "(none yet)"
     t = open(p).read()
     return t[t.index("| seed |"):].strip()
-gen = {"status": status_table(), "findings": findings_table(), "seeds": seeds_table()}
+def refactors_table():
+    rows = ["| refactoring | files | what (behaviour-preserving) | checks run → verdict |", "|---|---|---|---|"]
+    for p in sorted(glob.glob(os.path.join(ROOT, "refactors", "*", "result.json"))):
+        r = json.load(open(p))
+        chk = ", ".join(f"{q}: {'ok' if v['rc'] == 0 else 'ALARM (tie broken, no failing input)' if any('no-failing-input-found' in l for l in v['lines']) else 'ALARM'}" for q, v in r["checks"].items())
+        if r.get("resolved"): chk += f" — {r['resolved']}"
+        rows.append(f"| {r['name']} | {', '.join(os.path.basename(f) for f in r['files'])} | {(r.get('summary') or '').replace('|','/')[:260]} | {chk} |")
+    return "\n".join(rows)
+gen = {"status": status_table(), "findings": findings_table(), "seeds": seeds_table(), "refactors": refactors_table()}
 p = os.path.join(ROOT, "DESIGN.md"); s = open(p).read()
 for k, v in gen.items():
     s = re.sub(r"<!-- GEN:%s -->.*?<!-- /GEN:%s -->" % (k, k), lambda m: f"<!-- GEN:{k} -->\n{v}\n<!-- /GEN:{k} -->", s, flags=re.S)
